@@ -23,7 +23,7 @@ from lib import S, B, observe_call
 ALSO = ["C03b"]   # second engine for this property: the text layer (csv / json / UTF-8 models; harness/c03b.py, coq/Judge/JC03b.v, coq/Props/C03b.v)
 GEN = ["NameCleanerParams", "HeaderRowParams", "RegistryParams", "RecfmParams", "EstructParams", "Cp037", "TextCodec", "CsvOpenParams"]
 RULE = ("streams: long = one table of 1650 (thorough: up to 4000) rows whose fixed-width / EBCDIC images exceed the 32 KiB read buffer, as CSV, fixed text and EBCDIC (RECFM N and F); shapes = every table shape 1..3 columns x 0..2 rows (exhaustive over shapes, distinct cell labels) in CSV, TAB, XLSX, "
-        "ODS, NDJSON, fixed text, EBCDIC (RECFM N, F with and without lrecl); plain = workbooks of 1-3 sheets, tables 1-6 columns with "
+        "ODS, NDJSON, fixed text, EBCDIC (RECFM N, F with and without lrecl; fixed text, RECFM N and RECFM F also with a layout of another length bound to the sheet before the table's own); plain = workbooks of 1-3 sheets, tables 1-6 columns with "
         "distinct header names sampled from a pool (blanks, punctuation, quotes, commas, tabs, non-ASCII) x 0-8 rows of non-empty "
         "text cells from a pool (quotes, commas, tabs, leading zeros, leading/trailing blanks, Latin-1 and non-Latin-1 letters, a line "
         "feed, a carriage return, CR LF, LF CR, the str.splitlines-only line ends U+0085 U+2028 U+2029 in mid-cell, =1+1, TRUE, 1.50, None, dates), written to CSV, TAB, XLSX, ODS, "
@@ -344,9 +344,14 @@ def _bind_names(headers):
     return bind
 
 
-def _bind_copybook(t):
+def _bind_copybook(t, rebind=False):
     def bind(sh, i):
         from stingray import SchemaMaker, schema_iter
+        if rebind:
+            # the same calls with one more in front: a layout of another length is bound first (an application that tries the
+            # header layout of a multi-record file before the detail layout), then the table's own; what is read must not change
+            decoy = _copybook(t) + "           05  DECOY-TAIL PIC X(7).\n"
+            sh.set_schema(SchemaMaker().from_json(next(iter(schema_iter(io.StringIO(decoy))))))
         js = next(iter(schema_iter(io.StringIO(_copybook(t)))))
         sh.set_schema(SchemaMaker().from_json(js))
     return bind
@@ -405,8 +410,9 @@ def _observe_tables(inp, folder):
                 f.write(text)
             return [S(text), 0, -1]
         per_table(7, ".txt", write_text, COBOL_Text_File, _bind_copybook)
+        per_table(7, ".txt", write_text, COBOL_Text_File, lambda t: _bind_copybook(t, rebind=True))
 
-        def ebcdic(recfm, code, lrecl_of):
+        def ebcdic(recfm, code, lrecl_of, rebind=False):
             def write_bytes(p, t):
                 data = _fixed_text(t).replace("\n", "").encode("cp037")
                 with open(p, "wb") as f:
@@ -421,10 +427,12 @@ def _observe_tables(inp, folder):
                 if lrecl_of(t) is not None:
                     kw["lrecl"] = lrecl_of(t)
                 return COBOL_EBCDIC_File(p, **kw)
-            per_table(8, ".ebc", write_bytes, make, _bind_copybook)
+            per_table(8, ".ebc", write_bytes, make, lambda t: _bind_copybook(t, rebind=rebind))
         ebcdic(None, 0, lambda t: None)                                        # the default: RECFM_N
         ebcdic(stingray.estruct.RECFM_F, 1, lambda t: None)                    # lrecl from the layout
         ebcdic(stingray.estruct.RECFM_F, 1, lambda t: sum(t["widths"]))        # lrecl given
+        ebcdic(stingray.estruct.RECFM_F, 1, lambda t: None, rebind=True)       # lrecl from the layout, another layout bound first
+        ebcdic(None, 0, lambda t: None, rebind=True)
     W = [[S(t["name"]), [S(h) for h in t["header"]], [[S(c) for c in r] for r in t["rows"]]] for t in tables]
     names = [[S(s), S(tn)] for s, tn in inp["numbers"]]
     widths = [t["widths"] for t in tables] if cobol else []
